@@ -53,6 +53,20 @@ func (e *seqEnv) Event(kind, detail string) uint64 {
 	return uint64(len(e.log))
 }
 
+// CrashIsViolation implements core.CrashChecker: a call that never returns
+// because the library waits for a lock it leaked itself counts against the
+// property (what follows the call cannot be as the property says).
+func (C19) CrashIsViolation() string { return "C19" }
+
+// RunTimeout implements core.CrashChecker (a run takes milliseconds).
+func (C19) RunTimeout() float64 { return 60 }
+
+// HangNeedsLibraryFrame implements core.HangAttributor.
+func (C19) HangNeedsLibraryFrame() bool { return true }
+
+// LibraryRunsOnOneGoroutine implements core.SequentialLibrary.
+func (C19) LibraryRunsOnOneGoroutine() bool { return true }
+
 func (c C19) Run(t *tape.Tape, opt core.RunOpt) (res core.Result) {
 	env := &seqEnv{}
 	sdl := workload.SubSDL
